@@ -3,11 +3,12 @@
    (every prefix of an input is an input).  The menus are constants so that configurations select sub-spaces. *)
 EXTENDS O2OValidate, Json
 CONSTANTS MaxTraits, MaxTAttrs, MaxMembers, MaxMAttrs, DTs, Shapes, TNames, Hints, TMenu, MMenu, TCps, MCps,
+          MaxVFields, VFMenu,   \* enum variants: tuple payload fields (each with at most one instruction of VFMenu)
           FixedTraits, \* non-empty: the trait instructions are given (C06: one bundle per counterpart), AddTrait is disabled
           SpellAll     \* C13: every instruction in both spellings (bare / #[o2o(..)]), and adjacent own ones grouped or not
 VARIABLE in
 Owns == IF SpellAll THEN BOOLEAN ELSE {FALSE}
-Init == \E dt \in DTs, sh \in Shapes, g \in Owns : (dt = "enum" => sh = "named") /\ in = [dt |-> dt, shape |-> sh, traits |-> (IF dt = "enum" THEN SelectSeq(FixedTraits, LAMBDA t : Appl(t.n) \cap {"OIE", "RIE"} = {}) ELSE FixedTraits), tattrs |-> <<>>, ms |-> <<>>, grouped |-> g]
+Init == \E dt \in DTs, sh \in Shapes, g \in Owns : (dt = "enum" => sh = "named") /\ in = [dt |-> dt, shape |-> sh, traits |-> (IF dt = "enum" THEN SelectSeq(FixedTraits, LAMBDA t : Appl(t.n) \cap {"OIE", "RIE"} = {}) ELSE FixedTraits), tattrs |-> <<>>, ms |-> <<>>, vf |-> <<>>, grouped |-> g]
 AddTrait(n, cp, e, h, own) == /\ FixedTraits = <<>> /\ Len(in.traits) < MaxTraits /\ in.tattrs = <<>> /\ in.ms = <<>>
                          /\ (h = "struct" => in.dt = "struct" /\ in.shape = "tuple")
                          /\ in' = [in EXCEPT !.traits = Append(@, [n |-> n, cp |-> cp, err |-> e, hint |-> h, own |-> own])]
@@ -15,8 +16,14 @@ AddTAttr(n, cp, own) == /\ Len(in.tattrs) < MaxTAttrs /\ in.ms = <<>>
                         /\ (n \notin TypeLevelOk => cp = "-")
                         /\ (SpellAll \/ n = "bogus" \/ own = FALSE)            \* spelling is C13's business; only `bogus` depends on it
                         /\ in' = [in EXCEPT !.tattrs = Append(@, [n |-> n, cp |-> cp, own |-> own])]
-AddMember == Len(in.ms) < MaxMembers /\ in.shape # "unit" /\ in' = [in EXCEPT !.ms = Append(@, <<>>)]
-AddMAttr(n, cp, own) == /\ in.ms # <<>> /\ Len(in.ms[Len(in.ms)]) < MaxMAttrs
+AddMember == Len(in.ms) < MaxMembers /\ in.shape # "unit" /\ in' = [in EXCEPT !.ms = Append(@, <<>>), !.vf = Append(@, <<>>)]
+\* a payload field of the last variant (tuple payload), and its single instruction
+AddVField == in.dt = "enum" /\ in.ms # <<>> /\ Len(in.vf[Len(in.vf)]) < MaxVFields /\ in' = [in EXCEPT !.vf[Len(in.vf)] = Append(@, <<>>)]
+AddVFAttr(n, cp) == /\ in.dt = "enum" /\ in.vf # <<>> /\ in.vf[Len(in.vf)] # <<>>
+                    /\ LET fs == in.vf[Len(in.vf)] IN fs[Len(fs)] = <<>>
+                    /\ (n \in {"map_bare", "where_clause", "children", "child_parents", "bogus"} => cp = "-")
+                    /\ in' = [in EXCEPT !.vf[Len(in.vf)][Len(in.vf[Len(in.vf)])] = << [n |-> n, cp |-> cp, own |-> (n = "bogus")] >>]
+AddMAttr(n, cp, own) == /\ in.ms # <<>> /\ Len(in.ms[Len(in.ms)]) < MaxMAttrs /\ in.vf[Len(in.vf)] = <<>>
                         /\ (n \notin MemberOk => cp = "-") /\ (n = "map_bare" => cp = "-")
                         /\ (SpellAll \/ n = "bogus" \/ own = FALSE)
                         /\ ~(in.dt = "enum" /\ n = "child")                  \* #[child] on a variant: no documented rule either way
@@ -26,6 +33,7 @@ Next == \/ \E n \in TNames, cp \in {"A", "B"}, e \in {"-", "E1"}, h \in Hints, o
         \/ \E n \in TMenu, cp \in TCps, own \in BOOLEAN : AddTAttr(n, cp, own)
         \/ AddMember
         \/ \E n \in MMenu, cp \in MCps, own \in BOOLEAN : AddMAttr(n, cp, own)
+        \/ AddVField \/ (\E n \in VFMenu, cp \in MCps : AddVFAttr(n, cp))
 Spec == Init /\ [][Next]_in
 Emit == in.ms # <<>> => PrintT(<<"CASE", ToJson(in)>>)
 \* design-level: removing the last member instruction of a faulty input never adds a fault of another member / the type
@@ -34,7 +42,8 @@ NoTraits == <<>>
 \* C06: ProjectTo -- every instruction that concerns another counterpart removed
 ProjectTo(i, cp) == [i EXCEPT !.traits = SelectSeq(@, LAMBDA t : t.cp = cp),
                               !.tattrs = SelectSeq(@, LAMBDA x : x.cp \in {"-", cp}),
-                              !.ms = [j \in DOMAIN @ |-> SelectSeq(@[j], LAMBDA x : x.cp \in {"-", cp})]]
+                              !.ms = [j \in DOMAIN @ |-> SelectSeq(@[j], LAMBDA x : x.cp \in {"-", cp})],
+                              !.vf = [j \in DOMAIN @ |-> [f \in DOMAIN @[j] |-> SelectSeq(@[j][f], LAMBDA x : x.cp \in {"-", cp})]]]
 EmitProj == (in.ms # <<>> \/ in.shape = "unit") => PrintT(<<"CASE", ToJson([in |-> in, pa |-> ProjectTo(in, "A"), pb |-> ProjectTo(in, "B"), faults |-> FaultKeys(in)])>>)
 \* design-level: the projection of a valid input is valid, and projecting never introduces a fault that concerns the kept counterpart only
 ProjectionKeepsValidity == Faults(in) = {} => Faults(ProjectTo(in, "A")) = {} /\ Faults(ProjectTo(in, "B")) = {}
